@@ -70,6 +70,19 @@ INPUTS = {
     "kw_b": ["x", "if", "then", "else"],
 }
 FAMILIES = [["typed", "typed_b", "typed_c", "params", "typed_d"], ["kw", "icase", "kw_b"], ["ref", "two", "choice", "ws"], ["lrec", "cut", "over", "named", "const"]]
+FAMILY_RULES = {"typed": ["start", "num", "word", "nosuch"], "kw": ["start", "name", "stmt"], "ref": ["start", "num", "word", "first", "second", "x", "nosuch"],
+                "lrec": ["start", "e", "n", "a", "b", "num"]}
+
+
+def start_choices(g):
+    """Start-rule names worth trying on grammar g: its own rules and those of the related grammars (a name that one of
+    them lacks and another defines is how a lookup cached for one generated parser can show in another)."""
+    for fam in FAMILIES:
+        if g in fam:
+            return [None, None] + FAMILY_RULES.get(fam[0], ["start"])
+    return [None]
+
+
 STARTS = {"two": [None, "first", "second", "nosuch"], "ref": [None, "num", "word"], "choice": [None, "x", "num"]}
 SETTINGS_POOL = [
     {}, {}, {}, {"ignorecase": True}, {"nameguard": False}, {"nameguard": True}, {"parseinfo": True},
@@ -662,7 +675,7 @@ def gen_call(rng, handles, models_only=False, allow_fault=True, focus=None):
         gg = handles[h]["g"]
         op = {"op": "mparse", "h": h, "g": gg, "text": rng.choice(INPUTS[gg])}
         if rng.random() < 0.3:
-            op["start"] = rng.choice(STARTS.get(gg, [None]))
+            op["start"] = rng.choice(start_choices(gg))
         if rng.random() < 0.25:
             op["sem"] = rng.choice(SEMS)
         elif rng.random() < 0.4:
@@ -676,7 +689,7 @@ def gen_call(rng, handles, models_only=False, allow_fault=True, focus=None):
         gg = handles[h]["g"]
         op = {"op": "pparse", "h": h, "g": gg, "text": rng.choice(INPUTS[gg])}
         if rng.random() < 0.3:
-            op["start"] = rng.choice(STARTS.get(gg, [None]))
+            op["start"] = rng.choice(start_choices(gg))
         if rng.random() < 0.25:
             op["sem"] = rng.choice(SEMS)
         elif rng.random() < 0.25:
@@ -698,7 +711,7 @@ def gen_call(rng, handles, models_only=False, allow_fault=True, focus=None):
         op = {"op": "parse", "g": g, "text": rng.choice(INPUTS[g]), "name": rng.choice(NAMES), "asmodel": rng.random() < 0.4,
               "sem": rng.choice(SEMS) if rng.random() < 0.35 else "none", "settings": rng.choice(SETTINGS_POOL)}
         if rng.random() < 0.2:
-            op["start"] = rng.choice(STARTS.get(g, [None]))
+            op["start"] = rng.choice(start_choices(g))
         if op["sem"] == "none" and rng.random() < 0.15:
             op["builder"] = rng.choice(BUILDER_POOL)
     elif r < 0.91:
@@ -735,6 +748,24 @@ GOOD_INPUT = {"ref": "12 ab", "choice": "a", "typed": "1", "typed_b": "1", "type
               "icase": "x", "ws": "ab cd", "const": "a", "named": "1", "over": "(1)", "lrec": "1", "cut": "x y", "two": "ab"}
 
 
+def _pair_kw(rng, g, base_kw):
+    """Per-call options of one parse in a pair history: mostly the history's common options (the same arguments on
+    different objects is how leftovers of one call show in another), sometimes none, sometimes something else."""
+    k = rng.random()
+    if k < 0.55:
+        return dict(base_kw)
+    if k < 0.8:
+        return {}
+    k = rng.random()
+    if k < 0.3:
+        return {"asmodel": True}
+    if k < 0.5:
+        return {"sem": rng.choice(["id", "tag", "num"])}
+    if k < 0.75:
+        return {"start": rng.choice(start_choices(g))}
+    return {"settings": rng.choice([{"parseinfo": True}, {"ignorecase": True}, {"nameguard": False}, {"whitespace": ""}])}
+
+
 def gen_pair_history(rng, handles):
     """Two related grammars (or one grammar twice), each obtained and used in a chosen way, interleaved:
     the shape in which one call's leftovers change what another call returns."""
@@ -743,10 +774,28 @@ def gen_pair_history(rng, handles):
     g2 = rng.choice(fam) if rng.random() < 0.6 else g1
     # calls that differ only in what a cache key might leave out: same name and settings most of the time
     base_name = rng.choice(NAMES)
+    base_pname = rng.choice(["P", "Q", None])
     base_settings = rng.choice([{}, {}, {}, {"parseinfo": True}, {"nameguard": False}, {"left_recursion": False}])
+    k = rng.random()
+    if k < 0.25:
+        base_kw = {}
+    elif k < 0.45:
+        base_kw = {"asmodel": True}
+    elif k < 0.7:
+        base_kw = {"start": rng.choice([x for x in start_choices(g1) if x])}
+    elif k < 0.85:
+        base_kw = {"sem": rng.choice(["id", "tag", "num"])}
+    else:
+        base_kw = {"settings": rng.choice([{"parseinfo": True}, {"ignorecase": True}, {"nameguard": False}, {"whitespace": ""}])}
     seqs = []
+    scenario = rng.choice(["models", "models", "parsers", "mixed"])
     for g in (g1, g2):
-        how = rng.choice(["model", "model", "model", "oneshot", "parser"])
+        if scenario == "models":
+            how = rng.choice(["model", "model", "oneshot"])
+        elif scenario == "parsers":
+            how = "parser"
+        else:
+            how = rng.choice(["model", "oneshot", "parser"])
         text = GOOD_INPUT.get(g, INPUTS[g][0]) if rng.random() < 0.75 else rng.choice(INPUTS[g])
         seq = []
         if how == "model":
@@ -763,15 +812,7 @@ def gen_pair_history(rng, handles):
             seq.append(c)
             for _ in range(rng.choice([1, 1, 2])):
                 pz = {"op": "mparse", "h": c["out"], "g": g, "text": text}
-                k = rng.random()
-                if k < 0.35:
-                    pz["asmodel"] = True
-                elif k < 0.5:
-                    pz["sem"] = rng.choice(["id", "tag", "num"])
-                elif k < 0.6:
-                    pz["start"] = rng.choice(STARTS.get(g, [None]))
-                elif k < 0.7:
-                    pz["settings"] = rng.choice([{"parseinfo": True}, {"ignorecase": True}, {"nameguard": False}, {"whitespace": ""}])
+                pz.update(_pair_kw(rng, g, base_kw))
                 if rng.random() < 0.15:
                     pz["text"] = rng.choice(INPUTS[g])
                 seq.append(pz)
@@ -786,22 +827,14 @@ def gen_pair_history(rng, handles):
                     pz["builder"] = rng.choice(BUILDER_POOL)
                 seq.append(pz)
         else:
-            c = {"op": "load", "g": g, "name": rng.choice(["P", "Q", None])}
+            c = {"op": "load", "g": g, "name": base_pname if rng.random() < 0.8 else rng.choice(["P", "Q", None])}
             _HCTR[0] += 1
             c["out"] = f"p{_HCTR[0]}"
             handles[c["out"]] = c
             seq.append(c)
             for _ in range(rng.choice([1, 2, 2])):
                 pz = {"op": "pparse", "h": c["out"], "g": g, "text": text if rng.random() < 0.7 else rng.choice(INPUTS[g])}
-                k = rng.random()
-                if k < 0.3:
-                    pz["asmodel"] = True
-                elif k < 0.45:
-                    pz["sem"] = rng.choice(["id", "tag", "num"])
-                elif k < 0.6:
-                    pz["start"] = rng.choice(STARTS.get(g, [None]))
-                elif k < 0.7:
-                    pz["settings"] = rng.choice([{"parseinfo": True}, {"ignorecase": True}, {"nameguard": False}])
+                pz.update(_pair_kw(rng, g, base_kw))
                 seq.append(pz)
         seqs.append(seq)
     # interleave, keeping each sequence's own order
@@ -849,10 +882,10 @@ def gen_spec(seed: int, mode: str | None = None) -> dict:
     _HCTR[0] = 0
     if mode == "history":
         handles = {}
-        if rng.random() < 0.35:
+        if rng.random() < 0.5:
             return {"property": PROP, "mode": "history", "ops": gen_pair_history(rng, handles)}
         focus = rng.choice(FAMILIES) if rng.random() < 0.4 else None
-        ops = [gen_call(rng, handles, focus=focus) for _ in range(rng.choice([3, 4, 5, 6, 8, 10, 14, 20]))]
+        ops = [gen_call(rng, handles, focus=focus) for _ in range(rng.choice([3, 4, 5, 6, 8, 10, 14]))]
         return {"property": PROP, "mode": "history", "ops": ops}
     handles = {}
     prefix = []
@@ -880,7 +913,7 @@ def gen_spec(seed: int, mode: str | None = None) -> dict:
                 call = {"op": "mparse", "h": h, "g": gg, "text": rng.choice(INPUTS[gg])}
                 k = rng.random()
                 if k < 0.15:
-                    call["start"] = rng.choice(STARTS.get(gg, [None]))
+                    call["start"] = rng.choice(start_choices(gg))
                 elif k < 0.3:
                     call["sem"] = rng.choice(["id", "tag", "num"])
                 elif k < 0.4:
